@@ -206,7 +206,7 @@ fn scenario_detail(sc : &Scenario, obs : &Obs, extra : Vec<(&str, J)>) -> J
     let mut pairs = vec![
         ("graph_shape", J::s(&sc.run.graph_shape)),
         ("initial_state", J::s(&sc.label)),
-        ("rules_file", J::Str(String::from_utf8_lossy(&sc.run.world.sys.read_file(world::RULES_FILE).unwrap_or(vec![])).to_string())),
+        ("rules_file", J::Str(sc.run.world.rules_text())),
         ("preparation", J::strs(&sc.run.world.ops)),
         ("final_op", J::Str(format!("{:?}", sc.final_op))),
         ("verdict", J::Str(obs.verdict.short())),
